@@ -266,6 +266,18 @@ def bounded_sweep(repo, con, registry, tier, seed):
                     if len(stats["failures"]) >= 3:
                         return stats
                     continue
+                if getattr(con, "frame", "pure") == "pure":
+                    world = concrete.World(m["k"], m.get("order"), m.get("interventions", ()))
+                    try:
+                        why = concrete.frame_probe(con.qual, world, variant, {p: m[p] for p in variant if p in m})
+                    except Exception:
+                        why = None
+                    stats["frame_probes"] = stats.get("frame_probes", 0) + 1
+                    if why:
+                        rep2 = dict(rep)
+                        rep2["frame_probe"] = why
+                        stats["failures"].append((["frame"], rep2))
+                        return stats
                 h = history_probe(repo, con, vi, variant, m, registry, rng)
                 if h is not None:
                     stats["history_probes"] = stats.get("history_probes", 0) + 1
@@ -687,6 +699,14 @@ def check_contract(rep: Report, repo, con, registry, known_open, budget_ms, kmax
                 r = replay_model(repo, con, o.model_variant, o.model, registry)
                 payload["replay"] = r
                 confirmed = violated_by_replay(o, r)
+                if o.kind == "frame":
+                    # a frame violation does not show in the outcome of one call: probe the real code for writes to the arguments
+                    # and for state shared between result and arguments
+                    variant = con.variants()[o.model_variant]
+                    world = concrete.World(o.model["k"], o.model.get("order"), o.model.get("interventions", ()))
+                    why = concrete.frame_probe(con.qual, world, variant, {p: o.model[p] for p in variant if p in o.model})
+                    payload["frame_probe"] = why
+                    confirmed = bool(why) if r["contract"]["pre"] else False
             except Exception as e:
                 payload["replay_error"] = traceback.format_exc()
         o.replay = payload
@@ -811,7 +831,8 @@ def run(pid, tier, seed, extra=None):
                 continue
             rep.bounded.append({"function": con.qual, "evaluations": st["evaluations"], "pre_false": st["pre_false"],
                                 "failures": len(st["failures"]), "errors": st.get("errors", [])[:2],
-                                **({"history_probes": st["history_probes"]} if st.get("history_probes") else {})})
+                                **({"history_probes": st["history_probes"]} if st.get("history_probes") else {}),
+                                **({"frame_probes": st["frame_probes"]} if st.get("frame_probes") else {})})
             if st.get("errors"):
                 rep.errors.append(f"bounded evaluation of {con.qual} failed on {len(st['errors'])} inputs: {st['errors'][0]}")
             if st["evaluations"] == 0:
